@@ -45,8 +45,9 @@ PROPS = {
         "lean_targets": ["LP.Props.C15", "LP.Props.C15V", "LP.Props.C15P", "LP.Props.GenTables"],
         "gen_tables": True,
         "harnesses": [{"name": "h_interval", "quick": 60000, "thorough": 1000000},
-                      {"name": "h_pival", "quick": 5000, "thorough": 100000}],
-        "select": lambda t: t[1] in ("qi", "di", "vi", "vil", "pi"),
+                      {"name": "h_pival", "quick": 5000, "thorough": 100000},
+                      {"name": "h_vialg", "quick": 4000, "thorough": 80000}],
+        "select": lambda t: t[1] in ("qi", "di", "vi", "vil", "pi", "via"),
         "nontrivial": lambda t, r: True,
         "rule": "exhaustive: all 45 intervals with end points in {-2..2} (points and every open/closed pattern), all 2025 ordered pairs "
                 "x {add,sub,mul}, neg, pow 0..4, sgn, for rational and dyadic intervals; then random intervals (small-pool end points so that "
@@ -129,7 +130,7 @@ PROPS = {
         "level": "proof",
         "lean_targets": ["LP.Props.C18"],
         "harnesses": [{"name": "h_order", "quick": 6000, "thorough": 100000}],
-        "select": lambda t: t[1] in ("ord", "poly"),
+        "select": lambda t: t[1] in ("ord", "poly", "gcd"),
         "nontrivial": lambda t, r: t[1] == "ord" and (t[2] != "check" or t[3] != t[4]),
         "rule": "histories on a private context: random permutation of 4 variables as the order (sometimes with variables left out), then "
                 "4-12 steps of push/pop/reverse/clear+re-push interleaved with arithmetic on external and non-external polynomials, "
@@ -152,8 +153,9 @@ PROPS = {
                       {"name": "h_gcd", "quick": 2500, "thorough": 30000},
                       {"name": "h_res", "quick": 1200, "thorough": 15000},
                       {"name": "h_value", "quick": 250, "thorough": 4000},
-                      {"name": "h_alg", "quick": 250, "thorough": 4000}],
-        "select": lambda t: t[1] in ("refs", "div", "gcd", "res", "vil") or _dest_of(t) in ("p", "a", "b", "c", "s"),
+                      {"name": "h_alg", "quick": 250, "thorough": 4000},
+                      {"name": "h_vialg", "quick": 1500, "thorough": 20000}],
+        "select": lambda t: t[1] in ("refs", "div", "gcd", "res", "vil", "via") or _dest_of(t) in ("p", "a", "b", "c", "s"),
         "nontrivial": lambda t, r: True,
         "viol_filter": _c19_viol_filter,
         "rule": "(1) reference-count histories (create/attach/detach/destroy of rings and contexts, external polynomials, vectors, "
